@@ -1,5 +1,6 @@
 import PbVerif.Lemmas.PSpline
 import PbVerif.Lemmas.PSplineX
+import PbVerif.Lemmas.BSplineAffine
 /-! C07 — penalised-spline baselines solve the documented P-spline system: assembly theorems (the
 solver is certified per output by an exact backward error in the correspondence). -/
 namespace PbVerif.C07
@@ -116,5 +117,53 @@ example : (asmPDrpls 1 3 2 10 (1/2) (designRows [-1, 0, 1, 2, 3] 1 [0, 1/2, 1]) 
     [[0, 0, 5], [0, -87/8, -11], [57/8, 185/8, 6], [-87/8, -11, 0], [5, 0, 0]] := by decide +kernel
 example : (asmPAspls 1 3 2 10 (designRows [-1, 0, 1, 2, 3] 1 [0, 1/2, 1]) [1, 2, 3] [1, 1, 1] (interpMid [-1, 0, 1, 2, 3] [0, 1/2, 1] [1, 1/2, 1/4] 1)).1 =
     [[0, 0, 10], [0, -79/4, -5], [45/4, 45/4, 5/2], [-19/4, -5, 0], [5/2, 0, 0]] := by decide +kernel
+
+/-! ### the P-spline system does not depend on the magnitude of the x-axis
+
+Corollaries of C12's `basis_magnitude_free` (knots from the extremes of x, `_find_interval`, `_de_boor` are invariant under
+`x ↦ a·x + b`, `a > 0`) and the assembly theorems above: what `PSpline.solve_pspline` hands to the solver for the data
+`(a·x + b, y, w)` is, entry for entry, what it hands over for `(x, y, w)`; the penalty `λ D'D` never sees x. -/
+
+/-- the assembled arrays `lhs`, `rhs` (lower bands) are identical, for every penalty order, `λ`, data and weights -/
+theorem pspline_system_magnitude_free (a b : Rat) (ha : 0 < a) (xs : List Rat) (hx : xs ≠ []) (nk deg : Nat) (hnk : 2 ≤ nk)
+    (nb d : Nat) (lam : Rat) (ys ws : List Rat) :
+    asmPspline deg nb d lam (pSplineBasis (xs.map (fun t => a * t + b)) nk deg) ys ws =
+      asmPspline deg nb d lam (pSplineBasis xs nk deg) ys ws := by
+  rw [show pSplineBasis (xs.map (fun t => a * t + b)) nk deg = pSplineBasis xs nk deg from
+    Affine.pSplineBasis_aff a b ha xs hx nk deg hnk]
+/-- … so do those of `pspline_iasls` (both band layouts), which depend on x through the basis only -/
+theorem pspline_iasls_system_magnitude_free (a b : Rat) (ha : 0 < a) (xs : List Rat) (hx : xs ≠ []) (nk deg : Nat) (hnk : 2 ≤ nk)
+    (nb d : Nat) (lam lam1 : Rat) (ys ws : List Rat) (lower : Bool) :
+    asmPIasls deg nb d lam lam1 (pSplineBasis (xs.map (fun t => a * t + b)) nk deg) ys ws lower =
+      asmPIasls deg nb d lam lam1 (pSplineBasis xs nk deg) ys ws lower := by
+  rw [show pSplineBasis (xs.map (fun t => a * t + b)) nk deg = pSplineBasis xs nk deg from
+    Affine.pSplineBasis_aff a b ha xs hx nk deg hnk]
+/-- … and they denote the documented system `B'WB + λ D'D`, `B'Wy` of the basis `B` OF `x` (`nb = num_knots + deg − 1` basis functions) -/
+theorem pspline_system_of_scaled_x (a b : Rat) (ha : 0 < a) (xs : List Rat) (hx : xs ≠ []) (nk deg : Nat) (hnk : 2 ≤ nk)
+    (d : Nat) (lam : Rat) (ys ws : List Rat) (hy : ys.length = xs.length) (hw : ws.length = xs.length) :
+    let sys := asmPspline deg (nk + deg - 1) d lam (pSplineBasis (xs.map (fun t => a * t + b)) nk deg) ys ws
+    (∀ i j, i < nk + deg - 1 → j < nk + deg - 1 →
+      denLower sys.1 i j = docPspline deg (nk + deg - 1) d lam (pSplineBasis xs nk deg) ws i j) ∧
+    (∀ c, c < nk + deg - 1 → sys.2.getD c 0 = btySpec deg (pSplineBasis xs nk deg) ys ws c) := by
+  intro sys
+  have hsys : sys = asmPspline deg (nk + deg - 1) d lam (pSplineBasis xs nk deg) ys ws :=
+    pspline_system_magnitude_free a b ha xs hx nk deg hnk _ d lam ys ws
+  have hlen : (xKnots xs nk deg).length = nk + 2 * deg := splineKnots_length _ _ nk deg
+  have hnb : (xKnots xs nk deg).length - (deg + 1) = nk + deg - 1 := by omega
+  have hwf := designRows_wf (xKnots xs nk deg) deg xs (by omega)
+  rw [hnb] at hwf
+  rw [hsys]
+  exact ⟨fun i j hi hj => Lemmas.pspline_asm_den deg _ d lam _ ys ws hwf.1 (by rw [hy]; exact hwf.2.symm) (by rw [hw]; exact hwf.2.symm) i j hi hj,
+    fun c hc => Lemmas.pspline_asm_rhs deg _ d lam _ ys ws hwf.1 (by rw [hy]; exact hwf.2.symm) (by rw [hw]; exact hwf.2.symm) c hc⟩
+
+/-- non-vacuity: 5 points, 3 knots, linear basis, second-order penalty: the systems for `x`, `10⁻³⁰·x` and `x + 1.7·10⁹` coincide
+and are not trivial -/
+example :
+    asmPspline 1 3 2 10 (pSplineBasis ([0, 1/4, 1/2, 7/10, 1].map (fun t => (1 / 1000000000000000000000000000000 : Rat) * t + 0)) 3 1) [1, 2, 3, 2, 1] [1, 1, 1/2, 1, 1] =
+      asmPspline 1 3 2 10 (pSplineBasis [0, 1/4, 1/2, 7/10, 1] 3 1) [1, 2, 3, 2, 1] [1, 1, 1/2, 1, 1] ∧
+    asmPspline 1 3 2 10 (pSplineBasis ([0, 1/4, 1/2, 7/10, 1].map (fun t => 1 * t + 1700000000)) 3 1) [1, 2, 3, 2, 1] [1, 1, 1/2, 1, 1] =
+      asmPspline 1 3 2 10 (pSplineBasis [0, 1/4, 1/2, 7/10, 1] 3 1) [1, 2, 3, 2, 1] [1, 1, 1/2, 1, 1] ∧
+    (asmPspline 1 3 2 10 (pSplineBasis [0, 1/4, 1/2, 7/10, 1] 3 1) [1, 2, 3, 2, 1] [1, 1, 1/2, 1, 1]).2 = [2, 37/10, 9/5] := by
+  refine ⟨by decide +kernel, by decide +kernel, by decide +kernel⟩
 
 end PbVerif.C07
